@@ -1,14 +1,29 @@
 #!/bin/bash
-# usage: tools/run_seeded.sh <seeded dir name> [check args...]
-# Applies seeded/<name>/patch.diff to /repo, runs the check of the property it breaks (meta.json: property),
-# prints the verdict lines and ALWAYS restores /repo afterwards.
+# usage: tools/run_seeded.sh <seeded dir name> [--scratch DIR] [check args...]
+# Applies seeded/<name>/patch.diff and runs the check of the property it breaks (meta.json: property), prints the verdict
+# lines and ALWAYS restores the tree afterwards.
+#   default        : the patch is applied to /repo itself (needs exclusive use of /repo; evidence is not touched only
+#                    because the runner sees VERIF_SEEDED=1 and writes to .work/evidence)
+#   --scratch DIR  : DIR is a git worktree/clone of /repo outside /repo and /verif; it is reset to /repo's HEAD, patched,
+#                    and the check runs with VERIF_REPO=DIR (evidence goes to .work/evidence)
 set -u
 name=$1; shift
+scratch=""
+if [ "${1:-}" = "--scratch" ]; then scratch=$2; shift 2; fi
 dir=/verif/seeded/$name
 pid=$(python3 -c "import json;print(json.load(open('$dir/meta.json'))['property'])")
-cd /repo || exit 2
-if ! git diff --quiet; then echo "/repo has local changes; refusing"; exit 2; fi
-git apply "$dir/patch.diff" || { echo "patch does not apply"; exit 2; }
-trap 'git -C /repo checkout -q -- . ; git -C /repo clean -fdq nemoguardrails 2>/dev/null' EXIT
+if [ -n "$scratch" ]; then
+  cd "$scratch" || exit 2
+  git checkout -q -- . && git clean -fdq nemoguardrails && git reset -q --hard "$(git -C /repo rev-parse HEAD)" || exit 2
+  git apply "$dir/patch.diff" || { echo "patch does not apply"; exit 2; }
+  trap 'git -C "$scratch" checkout -q -- . ; git -C "$scratch" clean -fdq nemoguardrails 2>/dev/null' EXIT
+  export VERIF_REPO=$scratch
+else
+  cd /repo || exit 2
+  if ! git diff --quiet; then echo "/repo has local changes; refusing"; exit 2; fi
+  git apply "$dir/patch.diff" || { echo "patch does not apply"; exit 2; }
+  trap 'git -C /repo checkout -q -- . ; git -C /repo clean -fdq nemoguardrails 2>/dev/null' EXIT
+  export VERIF_SEEDED=1
+fi
 cd /verif && timeout 1800 ./check "$pid" "$@" 2>&1 | grep -E "tier=|VIOLATION|HARNESS|KNOWN|^  [a-zA-Z0-9_:<>=-]+: " | cut -c1-260
 echo "exit=${PIPESTATUS[0]}"
